@@ -76,7 +76,11 @@ def _in_shape(cfg):
 
 def run_config(cfg):
     res = core.Result(cfg)
-    core.begin()
+    core.run_paths(res, lambda: _run_path(res, cfg))
+    return res
+
+
+def _run_path(res, cfg):
     rt = symtorch.real_torch()
     b = cfg['magbias']; bF = Fraction(float(b))
     shape = _in_shape(cfg)
@@ -131,13 +135,19 @@ def run_config(cfg):
         env[int(a)] = float(v)
     for a, v in zip(gids.reshape(-1), gv.reshape(-1)):
         env[int(a)] = float(v)
-    sv = np.array([p.evalf(env) for p in ga.reshape(-1)])
-    rg = rgo[1]
-    rv = np.zeros(sv.shape) if rg is None else rg.detach().numpy().reshape(-1)
-    dev = float(np.abs(sv - rv).max())
-    res.validated = dev
-    if dev > 1e-8:
-        res.status = 'error'; res.trace = 'tape model deviates from real autograd by %g' % dev; return res
+    pc = list(P.PATHS.taken)
+    if pc:
+        facts = dict(facts, path=[bool(d_) for _, d_ in pc])
+    if not pc or core.path_env_ok(env):
+        sv = np.array([p.evalf(env) for p in ga.reshape(-1)])
+        rg = rgo[1]
+        rv = np.zeros(sv.shape) if rg is None else rg.detach().numpy().reshape(-1)
+        dev = float(np.abs(sv - rv).max())
+        res.validated = dev if res.validated is None else max(res.validated, dev)
+        if dev > 1e-8:
+            res.status = 'error'; res.trace = 'tape model deviates from real autograd by %g' % dev; return res
+    else:
+        res.notes.append('engine validation skipped on the data-dependent path %s' % facts['path'])
     # ---- oracle: derivative of the forward's own expression DAG ------------------------------------
     memo = {}
     true = {}
@@ -151,7 +161,14 @@ def run_config(cfg):
             t = cpoly if isinstance(cpoly, Poly) else Poly.const(cpoly)
             true[a] = true.get(a, P.ZERO) + gp * t
     # ---- finiteness: every reciprocal is of a sqrt atom with strictly positive radicand, also at x = 0 --------
-    st = smt.Stats(); solver = smt.Solver(stats=st)
+    st = res.stats or smt.Stats(); solver = smt.Solver(stats=st)
+    if pc:
+        for a in list(ids.reshape(-1)) + list(gids.reshape(-1)):
+            solver.var(int(a))
+        try:
+            solver.add_path(pc)
+        except Exception as e:
+            res.status = 'inconclusive'; res.notes.append('path condition not expressible: %s' % e); return res
     env0 = P.AtomEnv()
     for a in ids.reshape(-1):
         env0[int(a)] = 0.0
@@ -229,7 +246,7 @@ def run_config(cfg):
         res.status = 'violation'
         res.violations.append(dict(what='back-propagated gradient differs from the true gradient at %s; finite-difference gap on replayed points %.3g' % ([list(i) for i, _ in sats], worst),
                                    facts=facts, replay=dict(kind='fd', x=(wc or cands[0])[0].tolist(), g=(wc or cands[0])[1].tolist(), tau=1e-5), reproduced=worst > 1e-5,
-                                   path_dependent=False))
+                                   path_dependent=bool(pc)))
     return res
 
 
